@@ -11,13 +11,17 @@ import (
 	"time"
 
 	"github.com/andres-erbsen/clock"
+	"github.com/uber-go/tally"
 	"go.uber.org/zap"
 
 	"github.com/uber/kraken/core"
 	"github.com/uber/kraken/lib/torrent/networkevent"
+	"github.com/uber/kraken/lib/torrent/scheduler"
 	"github.com/uber/kraken/lib/torrent/scheduler/conn"
 	"github.com/uber/kraken/lib/torrent/scheduler/connstate"
 	"github.com/uber/kraken/lib/torrent/storage"
+	"github.com/uber/kraken/lib/torrent/storage/agentstorage"
+	"github.com/uber/kraken/utils/log"
 
 	"kvh/internal/eng"
 )
@@ -56,6 +60,11 @@ type drv struct {
 	// generator bookkeeping (inputs only): slots whose last AddPending was answered ok and that were not
 	// deleted / activated since; used to aim MovePendingToActive at slots that are probably pending.
 	pend [nh][npeer]bool
+	// "sched" traces only: the State under test is the one owned by a real (unstarted) scheduler state,
+	// and announceResultEvent / failedOutgoingHandshakeEvent are applied to it.
+	sch      *scheduler.VerifC16Sched
+	self     core.PeerID
+	deadPort int
 }
 
 func (d *drv) hash(h int) core.InfoHash { return d.infos[h].InfoHash() }
@@ -134,7 +143,7 @@ func (d *drv) ev(ev string, kv ...any) {
 	d.c.W.Ev(ev, kv...)
 }
 
-func (d *drv) addPending(p, h int, neigh []int) {
+func (d *drv) addPending(p, h int, neigh []int) string {
 	ids := make([]core.PeerID, len(neigh))
 	names := make([]string, len(neigh))
 	for k, q := range neigh {
@@ -159,6 +168,60 @@ func (d *drv) addPending(p, h int, neigh []int) {
 		d.pend[h][p] = true
 	}
 	d.ev("AddPending", "p", pname(p), "h", hname(h), "neigh", names, "res", res)
+	return res
+}
+
+// announce applies a real announceResultEvent for torrent h with the given peers (index npeer = the
+// scheduler's own id) and then probes each named slot with AddPending, which tells whether it was dialled.
+func (d *drv) announce(rng *rand.Rand, h int, list []int) {
+	names := make([]string, len(list))
+	infos := make([]*core.PeerInfo, len(list))
+	for k, q := range list {
+		if q == npeer {
+			names[k] = "self"
+			infos[k] = core.NewPeerInfo(d.self, "127.0.0.1", d.deadPort, false, false)
+			continue
+		}
+		names[k] = pname(q)
+		infos[k] = core.NewPeerInfo(d.peers[q], "127.0.0.1", d.deadPort, false, false)
+		if d.st.Blacklisted(d.peers[q], d.hash(h)) {
+			d.c.Inc("announced_while_blacklisted", 1) // statistics only
+		}
+	}
+	d.sch.ApplyAnnounceResult(d.hash(h), infos)
+	d.ev("Announce", "h", hname(h), "peers", names)
+	seen := map[int]bool{}
+	for _, q := range list {
+		if q == npeer || seen[q] {
+			continue
+		}
+		seen[q] = true
+		if d.addPending(q, h, nil) == "ok" && rng.Intn(2) == 0 {
+			d.deletePending(q, h)
+		}
+	}
+}
+
+func (d *drv) handshakeFailed(p, h int) {
+	d.sch.ApplyFailedOutgoingHandshake(d.peers[p], d.hash(h))
+	d.pend[h][p] = false
+	d.ev("HandshakeFailed", "p", pname(p), "h", hname(h))
+}
+
+func (d *drv) probablyPending(rng *rand.Rand, h, p int) (int, int) {
+	var cand [][2]int
+	for hh := range d.pend {
+		for pp, ok := range d.pend[hh] {
+			if ok {
+				cand = append(cand, [2]int{hh, pp})
+			}
+		}
+	}
+	if len(cand) > 0 {
+		x := cand[rng.Intn(len(cand))]
+		return x[0], x[1]
+	}
+	return h, p
 }
 
 func (d *drv) deletePending(p, h int) {
@@ -266,6 +329,26 @@ func (d *drv) step(rng *rand.Rand) {
 		h = 0 // concentrate on one torrent so that capacity and mutual limits bind
 	}
 	p := rng.Intn(npeer)
+	if d.sch != nil {
+		switch k := rng.Intn(10); {
+		case k == 0:
+			var list []int
+			for q := 0; q <= npeer; q++ {
+				if rng.Intn(3) > 0 {
+					list = append(list, q)
+				}
+			}
+			rng.Shuffle(len(list), func(a, b int) { list[a], list[b] = list[b], list[a] })
+			d.announce(rng, h, list)
+			return
+		case k == 1:
+			if rng.Intn(10) < 8 {
+				h, p = d.probablyPending(rng, h, p)
+			}
+			d.handshakeFailed(p, h)
+			return
+		}
+	}
 	switch k := rng.Intn(40); {
 	case k < 10:
 		d.addPending(p, h, d.randNeigh(rng))
@@ -273,23 +356,20 @@ func (d *drv) step(rng *rand.Rand) {
 		d.deletePending(p, h)
 	case k < 21:
 		if rng.Intn(10) < 7 { // aim at a slot that is probably pending
-			var cand [][2]int
-			for hh := range d.pend {
-				for pp, ok := range d.pend[hh] {
-					if ok {
-						cand = append(cand, [2]int{hh, pp})
-					}
-				}
-			}
-			if len(cand) > 0 {
-				x := cand[rng.Intn(len(cand))]
-				h, p = x[0], x[1]
-			}
+			h, p = d.probablyPending(rng, h, p)
 		}
 		d.moveToActive(d.pickConn(rng, h, p, rng.Intn(2) == 0))
 	case k < 27:
-		if ac := d.st.ActiveConns(); len(ac) > 0 && rng.Intn(10) < 7 { // aim at a slot that has an active conn
-			if o, ok := d.byPtr[ac[rng.Intn(len(ac))]]; ok {
+		if rng.Intn(10) < 7 { // aim at a slot that has an active conn (creation order, not map order)
+			var act []*cobj
+			for _, c := range d.st.ActiveConns() {
+				if o, ok := d.byPtr[c]; ok {
+					act = append(act, o)
+				}
+			}
+			sort.Slice(act, func(a, b int) bool { return fmt.Sprint(act[a].id()) < fmt.Sprint(act[b].id()) })
+			if len(act) > 0 {
+				o := act[rng.Intn(len(act))]
 				h, p = o.h, o.p
 			}
 		}
@@ -306,11 +386,24 @@ func (d *drv) step(rng *rand.Rand) {
 }
 
 func run(c *eng.Ctx) error {
-	n := c.N(200, 3000)
+	n := c.N(150, 1000)
 	infos := make([]*storage.TorrentInfo, nh)
+	torrents := make([]storage.Torrent, nh)
 	for i := range infos {
-		infos[i] = storage.TorrentInfoFixture(4, 1)
+		t, cleanup := agentstorage.TorrentFixture(core.SizedBlobFixture(4, 1).MetaInfo)
+		defer cleanup()
+		torrents[i] = t
+		infos[i] = t.Stat()
 	}
+	archive, cleanupArchive := agentstorage.TorrentArchiveFixture()
+	defer cleanupArchive()
+	// a local port nobody listens on: outgoing handshakes started by announce results are refused at once
+	l, err := net.Listen("tcp", "127.0.0.1:0")
+	if err != nil {
+		return err
+	}
+	deadPort := l.Addr().(*net.TCPAddr).Port
+	l.Close()
 	peers := make([]core.PeerID, npeer)
 	for i := range peers {
 		peers[i] = core.PeerIDFixture()
@@ -325,10 +418,31 @@ func run(c *eng.Ctx) error {
 		}
 		d := &drv{c: c, clk: clock.NewMock(), hs: hs, infos: infos, peers: peers, byPtr: map[*conn.Conn]*cobj{},
 			dur: int(cfg.BlacklistDuration / time.Second)}
-		d.st = connstate.New(cfg, d.clk, core.PeerIDFixture(), networkevent.NewTestProducer(), zap.NewNop().Sugar())
+		kind := "plain"
+		if t%3 == 0 {
+			kind = "sched"
+			pctx := core.PeerContextFixture()
+			sch, err := scheduler.VerifC16NewSched(
+				scheduler.Config{ConnState: cfg, DisablePreemption: true, Log: log.Config{Disable: true},
+					TorrentLog: log.Config{Disable: true}},
+				archive, tally.NoopScope, pctx, networkevent.NewTestProducer(), d.clk)
+			if err != nil {
+				panic(err)
+			}
+			for _, tor := range torrents {
+				if err := sch.AddTorrent("ns", tor); err != nil {
+					panic(err)
+				}
+			}
+			defer sch.Close()
+			d.sch, d.self, d.deadPort = sch, pctx.PeerID, deadPort
+			d.st = sch.ConnState()
+		} else {
+			d.st = connstate.New(cfg, d.clk, core.PeerIDFixture(), networkevent.NewTestProducer(), zap.NewNop().Sugar())
+		}
 		defer d.cleanup()
-		c.W.Reset(t, map[string]any{"maxConns": cfg.MaxOpenConnectionsPerTorrent, "maxMutual": cfg.MaxMutualConnections,
-			"dur": d.dur, "noBl": cfg.DisableBlacklist})
+		c.W.Reset(t, map[string]any{"kind": kind, "maxConns": cfg.MaxOpenConnectionsPerTorrent,
+			"maxMutual": cfg.MaxMutualConnections, "dur": d.dur, "noBl": cfg.DisableBlacklist})
 		steps := 30 + rng.Intn(40)
 		for s := 0; s < steps; s++ {
 			d.step(rng)
